@@ -1,23 +1,130 @@
-(* Properties/C14.v — object streams yield each object under its identifier (pinned code:
-   refutation witnesses). *)
-From PV Require Import Model.Prim Model.Obj Model.ObjStm.
+(* Properties/C14.v — object streams yield each object under its identifier.
+   Only statements, each closed by [exact] of a lemma from Proofs/, with Print Assumptions.
+   Model: Model/ObjStm.v (pdf_streams.rs ObjStreamP as repaired in 681cda4, register_obj as
+   repaired in f218988) over the object parser of Model/Obj.v; spec: Spec/ObjStmEnc.v. *)
+From PV Require Import Model.Prim Model.Obj Model.ObjStm Spec.XrefEnc Spec.ObjStmEnc.
+From PV Require Import Proofs.XrefBase Proofs.XrefTab Proofs.ObjStm.
 
+(* the stream as written: header pairs [l] (any white space, leading zeros), padding up to /First,
+   then the data [body]; the members [ms] are the values the object parser reads at the declared
+   offsets; nothing is assumed about the bytes between the end of a member and the next declared
+   offset (gaps).  Extraction returns the members in header order under (id, 0) and defines them *)
+Theorem C14_extract : forall rel b d l pad body ms ctx dec,
+  let head := render_pairs l ++ pad in
+  objstm_dict_ok d (N.of_nat (len l)) (N.of_nat (len head)) ->
+  (N.of_nat (len l) < i64_lim)%N -> (N.of_nat (len head) < i64_lim)%N ->
+  l <> [] -> wf_pairs true l -> increasing l -> pad_ok pad -> body <> [] ->
+  List.map member_meta ms = pairs_meta l ->
+  Forall (located rel b body) ms -> ordered 0 ms -> fresh ctx ms ->
+  objstm_parse rel b false d (head ++ body) dec ctx = (OSOk (List.map member_ent ms), define ctx ms).
+Proof. exact objstm_extract. Qed.
+
+(* … where [define] binds every identifier to its value and touches nothing else *)
+Theorem C14_binds : forall l ctx m, NoDup (List.map m_id l) -> In m l ->
+  lookup (define ctx l) (m_id m, 0%N) = Some (m_val m).
+Proof. exact define_binds. Qed.
+
+Theorem C14_binds_only : forall l ctx id, (forall m, In m l -> (m_id m, 0%N) <> id) ->
+  lookup (define ctx l) id = lookup ctx id.
+Proof. exact define_other. Qed.
+
+(* rejections.  Header: offsets not strictly increasing (after any good prefix of pairs) *)
+Theorem C14_rejects_order : forall l fuel n s c last acc q r,
+  at_cur s c (render_pairs l ++ render_pair q ++ r) ->
+  wf_pairs (match acc with [] => true | _ => false end) (l ++ [q]) -> stops_digit r ->
+  (acc = [] \/ match l with p :: _ => (last < hp_off p)%N | [] => True end) -> increasing l ->
+  (N.of_nat (len acc + len l) < n)%N -> len l < fuel ->
+  (match rev l with p :: _ => (hp_off q <= hp_off p)%N | [] => acc <> [] /\ (hp_off q <= last)%N end) ->
+  exists c', os_meta fuel n s c last acc = PErr EGuard c'.
+Proof. exact os_meta_not_increasing. Qed.
+
+(* fewer than /N pairs before /First *)
+Theorem C14_rejects_pairs : forall l n s pad,
+  at_cur s 0 (render_pairs l ++ pad) -> wf_pairs true l -> increasing l ->
+  all_in [32; 0; 9; 13; 10; 12]%N pad -> (N.of_nat (len l) < n)%N ->
+  exists c', os_meta (S (len s)) n s 0 0%N [] = PErr EGuard c'.
+Proof. exact os_meta_short. Qed.
+
+(* a rejected header rejects the stream and leaves the context alone *)
+Theorem C14_rejects_header : forall rel b d content dec ctx n first k c',
+  os_dict_info d = Ok (n, first) -> stream_filters d = Ok [] -> (first <= N.of_nat (len content))%N ->
+  os_meta (S (len (firstn (N.to_nat first) content))) n (firstn (N.to_nat first) content) 0 0%N [] = PErr k c' ->
+  objstm_parse rel b false d content dec ctx = (OSErr k, ctx).
+Proof. exact objstm_header_rejected. Qed.
+
+(* /First at or beyond the end of the data *)
+Theorem C14_rejects_first : forall rel b enc d content dec ctx n first,
+  os_dict_info d = Ok (n, first) -> stream_filters d = Ok [] -> (N.of_nat (len content) <= first)%N ->
+  exists k, objstm_parse rel b enc d content dec ctx = (OSErr k, ctx) \/
+            objstm_parse rel b enc d content dec ctx = (OSPanic, ctx) \/
+            objstm_parse rel b enc d content dec ctx = (OSFuel, ctx).
+Proof. exact objstm_first_beyond. Qed.
+
+(* a member that runs past the next declared offset (after any well-placed prefix) *)
+Theorem C14_rejects_overrun : forall rel b s l m rest c ctx,
+  Forall (located rel b s) l -> ordered c l -> fresh ctx l ->
+  l <> [] -> (forall x, hd_error (rev l) = Some x -> m_off m < m_end x) ->
+  fst (os_objs rel b (List.map member_meta l ++ member_meta m :: rest) s c ctx)
+  = PErr EGuard (match rev l with [] => c | x :: _ => m_end x end).
+Proof. exact os_objs_overrun. Qed.
+
+(* an identifier that is already defined — in the context or by an earlier member *)
+Theorem C14_rejects_duplicate : forall rel b s l m rest c ctx o,
+  Forall (located rel b s) l -> ordered c l -> fresh ctx l ->
+  located rel b s m -> (match rev l with [] => c | x :: _ => m_end x end) <= m_off m ->
+  lookup (define ctx l) (m_id m, 0%N) = Some o ->
+  os_objs rel b (List.map member_meta l ++ member_meta m :: rest) s c ctx = (PErr EGuard (m_end m), define ctx l).
+Proof. exact os_objs_duplicate. Qed.
+
+(* … and, whatever the dictionary, the data and the outcome are, an identifier that was defined
+   before the call keeps its definition (refuted on the pinned code: C14-duplicate-overwrites) *)
+Theorem C14_ctx_monotone : forall rel b enc d content dec ctx id o,
+  lookup ctx id = Some o -> lookup (snd (objstm_parse rel b enc d content dec ctx)) id = Some o.
+Proof. exact objstm_monotone. Qed.
+
+(* the two witnesses of the pinned code's defects, on the repaired code *)
 Definition w_dict : dict := [(B "First", OInt 8); (B "N", OInt 2); (B "Type", OName (B "ObjStm"))].
 
-(* header "5 0 6 6", data "11 22 33": object 6 is declared at offset 6 (the value 33) but is bound
-   to 22, the value found where object 5 ended *)
-Theorem C14_offsets_refuted :
+(* header "5 0 6 6", data "11 22 33": object 6 is the value at offset 6 (pinned code: 22) *)
+Theorem C14_offsets_witness :
   objstm_parse false 10 false w_dict (B "5 0 6 6 11 22 33") [] []
-  = (OSOk [(5%N, OInt 11, 0, 2); (6%N, OInt 22, 3, 5)], [((5%N, 0%N), OInt 11); ((6%N, 0%N), OInt 22)]).
+  = (OSOk [(5%N, OInt 11, 0, 2); (6%N, OInt 33, 6, 8)], [((5%N, 0%N), OInt 11); ((6%N, 0%N), OInt 33)]).
 Proof. vm_compute. reflexivity. Qed.
 
-(* identifier (6, 0) is already defined: the stream is rejected, but the old definition has been
-   replaced by the stream's copy *)
-Theorem C14_duplicate_refuted :
+(* (6, 0) already defined: rejected and (pinned code: replaced by 22) still the old value *)
+Theorem C14_duplicate_witness :
   let ctx := [((6%N, 0%N), OName (B "old"))] in
   exists ctx', objstm_parse false 10 false w_dict (B "5 0 6 3 11 22") [] ctx = (OSErr EGuard, ctx') /\
-               lookup ctx (6%N, 0%N) = Some (OName (B "old")) /\ lookup ctx' (6%N, 0%N) = Some (OInt 22).
-Proof. eexists. split; [vm_compute; reflexivity|]. split; reflexivity. Qed.
+               lookup ctx' (6%N, 0%N) = Some (OName (B "old")).
+Proof. eexists. split; [vm_compute; reflexivity|reflexivity]. Qed.
 
-Print Assumptions C14_offsets_refuted.
-Print Assumptions C14_duplicate_refuted.
+(* the hypotheses of C14_extract are satisfiable: the witness stream, with a gap ("22") *)
+Example C14_extract_satisfiable :
+  let l := [mk_hpair [] 5 1 [32%N] 0 1; mk_hpair [32%N] 6 1 [32%N] 6 1] in
+  let ms := [mk_member 5 0 (OInt 11) 0 2; mk_member 6 6 (OInt 33) 6 8] in
+  let body := B "11 22 33" in
+  (render_pairs l ++ [32%N])%list = B "5 0 6 6 " /\
+  wf_pairs true l /\ increasing l /\ pad_ok [32%N] /\ List.map member_meta ms = pairs_meta l /\
+  Forall (located false 10 body) ms /\ ordered 0 ms /\ fresh [] ms.
+Proof.
+  cbv zeta. split; [reflexivity|]. split.
+  { unfold wf_pairs, wf_pair, all_in, i64_lim. cbn.
+    repeat split; try lia; try discriminate; try (repeat constructor; fail); auto; right; discriminate. }
+  split; [cbn; lia|]. split; [reflexivity|]. split; [reflexivity|]. split.
+  { repeat constructor; cbn; try lia; vm_compute; reflexivity. }
+  split; [cbn; lia|]. split; [repeat constructor; cbn; intuition discriminate|].
+  intros m [<-|[<-|[]]]; reflexivity.
+Qed.
+
+Print Assumptions C14_extract.
+Print Assumptions C14_binds.
+Print Assumptions C14_binds_only.
+Print Assumptions C14_rejects_order.
+Print Assumptions C14_rejects_pairs.
+Print Assumptions C14_rejects_header.
+Print Assumptions C14_rejects_first.
+Print Assumptions C14_rejects_overrun.
+Print Assumptions C14_rejects_duplicate.
+Print Assumptions C14_ctx_monotone.
+Print Assumptions C14_offsets_witness.
+Print Assumptions C14_duplicate_witness.
